@@ -60,3 +60,112 @@ Example C01_nonvacuous :
   let '(m', c') := fold_left (pc_step 1 1) [(K_METRIC, @None nat, [AState 7 42]); (K_METRIC, Some 0%nat, [AState 7 9])] (m, c) in
   cm_ver c' = 11 /\ cm_states c' 7 = Some (mkState 2 6 42) /\ states m' 7 = Some (mkState 2 6 42).
 Proof. vm_compute. repeat split. Qed.
+
+(* ================================================================ descriptor transactions *)
+From Coq Require Import Bool Lia.
+From SDC Require Import Mdib.Consumer_Descr_Proofs.
+
+(* The report of a committed descriptor transaction, [descr_report m t seq inst] (Mdib/Consumer_Descr_Proofs.v):
+   one part per descriptor of TransactionResult.descr_updated (UPDATE), descr_created (CREATE), descr_deleted
+   (DELETE), in this order, each with the states whose descriptor handle it is, MdibVersion = committed version.
+   Well-formedness:
+     pm_ok m    - provider lookups enumerate what they hold; no state / context state without descriptor
+     cdom_ok c  - the same for the consumer lookups
+     dtx_ok m t - shape of a descriptor transaction body (dshape, guaranteed by the API, see
+                  C01_descr_body_wellformed) and separation (dsep): the parent of a deleted descriptor exists and
+                  is not deleted by the same transaction, an updated descriptor is not deleted by it, nothing is
+                  created below a descriptor it deletes. *)
+Theorem C01_mirror_step_descriptor : forall m t, pm_ok m -> dtx_ok m t -> forall c,
+  t_d t <> [] -> mirrors c m -> cdom_ok c ->
+  let m' := commit_descr m t in
+  let r := descr_report m t (cm_seq c) (cm_inst c) in
+  let c' := fst (receive c r) in
+  mirrors c' m' /\ cdom_ok c' /\ cm_seq c' = cm_seq c /\ cm_inst c' = cm_inst c /\ pm_ok m' /\
+  exists R, (forall y, In y R <-> In y (map fst (tx_deleted m t))) /\
+    snd (receive c r) = map (fun e => (N_UPD, fst e)) (tx_updated m t) ++
+                        map (fun e => (N_NEW, fst e)) (tx_created m t) ++ map (fun y => (N_DEL, y)) R.
+Proof. exact mirror_step_descr. Qed.
+Print Assumptions C01_mirror_step_descriptor.
+
+(* the deleted descriptors are those below a deleted handle *)
+Theorem C01_descr_deleted_set : forall m t, pm_ok m -> dtx_ok m t -> forall y,
+  In y (map fst (tx_deleted m t)) <->
+  descrs m y <> None /\ exists r, In (r, None) (t_d t) /\ reachR (descrs m) y r.
+Proof. exact tx_deleted_spec. Qed.
+Print Assumptions C01_descr_deleted_set.
+
+(* the episodic state reports that the provider sends after the description modification report for the same
+   transaction (same MdibVersion, states already delivered) change nothing: mirror after ALL reports of the step *)
+Theorem C01_mirror_step_descriptor_all : forall m t c,
+  pm_ok m -> dtx_ok m t -> t_d t <> [] -> mirrors c m -> cdom_ok c ->
+  let m' := commit_descr m t in
+  let c' := receive_all c (descr_reports m t (cm_seq c) (cm_inst c)) in
+  mirrors c' m' /\ cdom_ok c' /\ cm_seq c' = cm_seq c /\ cm_inst c' = cm_inst c /\ pm_ok m'.
+Proof. exact mirror_step_descr_all. Qed.
+Print Assumptions C01_mirror_step_descriptor_all.
+
+(* every accepted descriptor transaction body (add / update / delete descriptors, get_state) has the shape; the
+   separation of deletions is the application's obligation *)
+Theorem C01_descr_body_wellformed : forall m acts t,
+  descr_only acts -> body 6 m empty_tx acts = Ok t -> dsep m t -> dtx_ok m t.
+Proof. exact descr_body_wellformed. Qed.
+Print Assumptions C01_descr_body_wellformed.
+
+(* dtx_ok can be evaluated: boolean twin *)
+Theorem C01_dtx_okb_sound : forall m t,
+  (forall y, descrs m y <> None -> In y (ddom m)) -> dtx_okb m t = true -> dtx_ok m t.
+Proof. exact dtx_okb_sound. Qed.
+Print Assumptions C01_dtx_okb_sound.
+
+(* every finite history of state transactions (any kind), context transactions without deletions through the
+   entity interface, and descriptor transactions that keep their deletions apart - rejected calls, aborts and empty
+   transactions included - with the reports processed in emission order: mirror after every prefix *)
+Theorem C01_mirror_history_all : forall seq inst hist m c,
+  hist_ok m hist -> sys_ok seq inst m c ->
+  let '(m', c') := fold_left (pc_step3 seq inst) hist (m, c) in
+  m' = exec m hist /\ sys_ok seq inst m' c'.
+Proof. exact mirror_history3. Qed.
+Print Assumptions C01_mirror_history_all.
+
+Example C01_descr_nonvacuous :
+  let m := mkMdib (fun h => alist_get [(1, mkDescr None K_COMP 0 10); (2, mkDescr (Some 1) K_METRIC 0 11);
+                                       (3, mkDescr (Some 1) K_METRIC 0 12); (5, mkDescr (Some 1) K_CTX 0 13);
+                                       (6, mkDescr (Some 3) K_ALERT 0 14)] h)
+                  (fun h => alist_get [(1, mkState 0 0 20); (2, mkState 0 3 21); (3, mkState 0 1 22); (6, mkState 0 0 23)] h)
+                  (fun h => alist_get [(50, mkCState 5 0 2 2 (Some 1) None 30)] h)
+                  7 (fun _ => None) (fun _ => None) (fun _ => None)
+                  (map fst [(1, mkDescr None K_COMP 0 10); (2, mkDescr (Some 1) K_METRIC 0 11);
+                            (3, mkDescr (Some 1) K_METRIC 0 12); (5, mkDescr (Some 1) K_CTX 0 13);
+                            (6, mkDescr (Some 3) K_ALERT 0 14)])
+                  (map fst [(50, mkCState 5 0 2 2 (Some 1) None 30)]) in
+  (* parent 1 with children 2, 3 (which has child 6) and context descriptor 5: add 4 below 1, update 2 (and its
+     state), delete 3 (with 6), update context descriptor 5; then a metric transaction on the new descriptor and a
+     context transaction *)
+  let acts := [ADAdd 4 (Some 1) K_METRIC 15 25; ADUpd 2 16; ADState 2 26; ADDel 3; ADUpd 5 17] in
+  let hist := [(6, @None nat, acts); (K_METRIC, @None nat, [AState 4 42]); (5, @None nat, [ACtxGet 50 31 None])] in
+  sys_ok 1 1 m (mirror_of m 1 1) /\ hist_ok m hist /\
+  (exists t, body 6 m empty_tx acts = Ok t /\ dtx_okb m t = true /\ t_d t <> [] /\
+     map fst (tx_updated m t) = [1; 2; 5] /\ map fst (tx_created m t) = [4] /\ map fst (tx_deleted m t) = [3; 6]) /\
+  let '(m', c') := fold_left (pc_step3 1 1) hist (m, mirror_of m 1 1) in
+  ver m' = 10 /\ cm_ver c' = 10 /\ descrs m' 3 = None /\ cm_descrs c' 3 = None /\ cm_states c' 6 = None /\
+  cm_descrs c' 1 = Some (mkDescr None K_COMP 1 10) /\ cm_states c' 2 = Some (mkState 1 4 26) /\
+  cm_states c' 4 = Some (mkState 0 1 42) /\ cm_cstates c' 50 = Some (mkCState 5 1 4 2 (Some 1) None 31).
+Proof.
+  cbv zeta.
+  match goal with |- sys_ok _ _ ?m0 _ /\ _ => set (m := m0) end.
+  assert (Hpm : pm_ok m) by (apply pm_ok_alists; reflexivity).
+  split; [|split; [|split]].
+  - split; [repeat split|]. split; [|split; [exact Hpm|split; reflexivity]].
+    split; [exact (pm_dd _ Hpm)|exact (pm_cd _ Hpm)].
+  - split; [|split; [|split; [|exact I]]].
+    + right. right. split; [reflexivity|]. split.
+      * intros a Ha. cbn in Ha. repeat (destruct Ha as [<-|Ha]; [exact I|]). contradiction.
+      * intros t B. vm_compute in B. injection B as <-.
+        apply (dtx_ok_elim m). apply dtx_okb_sound; [exact (pm_dd _ Hpm)|vm_compute; reflexivity].
+    + left. split; [unfold K_METRIC; lia|]. intros a [<-|[]]. now exists 4, 42.
+    + right. left. split; [reflexivity|]. split; [intros a [<-|[]]; exact I|]. split.
+      * intros dh h assoc p [Ha|[]]. discriminate.
+      * intros t B. vm_compute in B. injection B as <-. intros h [Hi|[]]. discriminate.
+  - eexists. split; [vm_compute; reflexivity|]. vm_compute. repeat split; discriminate.
+  - vm_compute. repeat split.
+Qed.
